@@ -299,7 +299,60 @@ def p_download_valid(path, ctx):
     return "new"
 
 
+def p_render_setup(d):
+    """mw-render (apps/render.py main): a real collection zip, the writer replaced by one that streams PAYLOAD to the path it is
+    given - the publication protocol around the writer (mkstemp next to the output, writer, rename) is render.py's own."""
+    import contextlib
+    import io
+
+    from . import c08
+
+    cdir = os.path.join(d, "coll")
+    os.makedirs(cdir)
+    with contextlib.redirect_stdout(io.StringIO()), contextlib.redirect_stderr(io.StringIO()):
+        zip_path = c08.build_collection(424242, cdir)[0]
+    out = os.path.join(d, "out")
+    os.makedirs(out)
+    final = os.path.join(out, "book.pdf")
+    with open(final, "wb") as f:            # an older complete rendering is already there
+        f.write(b"OLD")
+    return {"final": final, "zip": zip_path, "old": "old"}
+
+
+def p_render_run(ctx):
+    import contextlib
+    import io
+
+    from mwlib.apps import render
+
+    def fake_writer(env, output, status_callback=None, **kw):
+        assert env.wiki is not None and env.metabook is not None
+        with open(output, "wb") as f:
+            for chunk in PAYLOAD:
+                f.write(chunk)
+
+    fake_writer.content_type = "application/pdf"
+    fake_writer.file_extension = "pdf"
+    orig = render.load_writer
+    render.load_writer = lambda name: fake_writer
+    try:
+        with contextlib.redirect_stdout(io.StringIO()), contextlib.redirect_stderr(io.StringIO()):
+            render.main.main(args=["-c", ctx["zip"], "-o", ctx["final"], "-w", "rl"], standalone_mode=False)
+    finally:
+        render.load_writer = orig
+
+
+def p_render_valid(path, ctx):
+    data = open(path, "rb").read()
+    if data == b"OLD":
+        return "old"
+    if data != b"".join(PAYLOAD):
+        raise ValueError(f"truncated rendering: {len(data)} of {sum(map(len, PAYLOAD))} bytes")
+    return "new"
+
+
 PRODUCERS = {
+    "render.main": (p_render_setup, p_render_run, p_render_valid),
     "status.dump": (p_status_setup, p_status_run, p_status_valid),
     "ZipCreator.create_zip": (p_zip_setup, p_zip_run, p_zip_valid),
     "buildzip.make_zip": (p_makezip_setup, p_makezip_run, p_makezip_valid),
@@ -443,7 +496,7 @@ def run(chk: common.Check):
                 broken_traces.append({"producer": name, "trace": toks_f, "fault_at": j})
     chk.coverage.update({
         "explanation": "c20_prefix_safe is proved in Lean for every trace satisfying `publishes` (all crash points of that trace at once); "
-                       "the traces are those recorded from the four producers, fault-free and with ENOSPC injected at each operation, and each is "
+                       "the traces are those recorded from the five producers, fault-free and with ENOSPC injected at each operation, and each is "
                        "judged by the Lean driver; in addition the producer is really killed (os._exit in a forked child, buffers lost) before each "
                        "operation and the published path is opened and parsed. Not proved: that other inputs of the producers yield traces of the same "
                        "shape (sampled), rename/replace atomicity and page-cache behaviour of the OS (assumed).",
@@ -463,8 +516,9 @@ def run(chk: common.Check):
         "theorems": {n: a for n, a in sorted(res.theorems.items())},
         "samples": samples,
     })
-    chk.assumptions += ["render.py's temp+rename is the same pattern (tempfile.mkstemp next to the output, writer, os.rename); it is not driven here "
-                        "because it needs a complete render (covered by reading the code and by C08's end-to-end run)"]
+    chk.assumptions += ["render.py's protocol (mkstemp next to the output, writer, os.rename) is driven through mw-render's main with a real "
+                        "collection zip and a writer that streams a fixed payload; the real writers' own file handling is not traced here "
+                        "(they write to the temporary path they are given; C08 runs them end to end)"]
     for v in viol[:2]:
         chk.violation("a partial file was published: " + v["why"], {"kind": "impl-oracle", **v}, sig={"kind": "partial", "producer": v["producer"]})
     if viol:
